@@ -2,7 +2,8 @@
 (***************************************************************************)
 (* A message transport (rsocket/transports/abstract_messaging.py and the   *)
 (* glue classes over aiohttp - client and server side -, quart, websockets, *)
-(* asyncwebsockets, Django channels) as a function of the sequence of       *)
+(* asyncwebsockets, Django channels, websocket over HTTP/3 - server side    *)
+(* and client side) as a function of the sequence of                        *)
 (* websocket messages the peer sends and of how the websocket ends:         *)
 (*                                                                         *)
 (*   "good"   a BINARY message holding one valid frame                      *)
@@ -17,7 +18,8 @@
 (* an invalid-frame marker) and disturbs nothing after it (C04); a message  *)
 (* that is not BINARY is skipped (C12: no input of the peer wedges the      *)
 (* connection).  AS IMPLEMENTED, named: only the client-side transports     *)
-(* (aiohttp client, asyncwebsockets) hand the endpoint a transport error    *)
+(* (aiohttp client, asyncwebsockets) and the HTTP/3 server side hand the    *)
+(* endpoint a transport error                                               *)
 (* when the websocket fails (`Surfaces`); none tells it that the websocket  *)
 (* was closed in an orderly way (C11 anchors the TCP transport only).       *)
 (* Frames sent: one BINARY message per frame, holding its one-shot          *)
